@@ -63,6 +63,96 @@ Proof.
   exists lin. repeat split; auto. eapply legal_reg_legal; [apply repr_new | exact B].
 Qed.
 
+(* ---- corollaries over concurrent executions ---- *)
+Definition pairs (lin : list t_entry) : list (op * ret) := map (fun e => (e_op e, e_ret e)) lin.
+
+Lemma reg_legal_from lin : forall r, reg_legal r lin <-> legal_from r (pairs lin).
+Proof. induction lin as [|e t IH]; intros r; cbn [reg_legal pairs map legal_from]; [tauto | rewrite IH; tauto]. Qed.
+Lemma pairs_ops lin : map fst (pairs lin) = map (@e_op op ret) lin.
+Proof. unfold pairs. rewrite map_map. reflexivity. Qed.
+
+Lemma repr_run lin : forall s r, repr s r ->
+  repr (run Nat.eq_dec lock_of shard_step s lin) (fst (reg_run r (map (@e_op op ret) lin))).
+Proof.
+  induction lin as [|e t IH]; intros s r Hr; [exact Hr|].
+  cbn [run map]. rewrite reg_run_cons. cbn [fst]. apply IH. apply repr_step. exact Hr.
+Qed.
+
+(* The shared memory of ANY reachable configuration — threads may be anywhere inside their
+   critical sections — is the table some legal sequential history produces. *)
+Lemma concurrent_state progs c : t_reach progs c ->
+  exists lin : list t_entry,
+    reg_legal new_registry lin /\
+    let r := fst (reg_run new_registry (map (@e_op op ret) lin)) in
+    reg_wf r /\ forall i, (i < num_shards)%nat -> c_sh c i = nth i r [].
+Proof.
+  intros R.
+  destruct (@atomic_state_is_sequential _ _ _ _ Nat.eq_dec lock_of op_is_read shard_step shard_step_read_pure _ _ _ R)
+    as [lin [Hst [Hleg _]]].
+  exists lin. split; [eapply legal_reg_legal; [apply repr_new | exact Hleg]|].
+  cbn zeta. split; [apply reg_run_wf; apply new_registry_wf|].
+  intros i Hi. rewrite Hst. destruct (repr_run lin _ _ repr_new) as [_ H]. apply H. exact Hi.
+Qed.
+
+(* single owner at every moment of every concurrent execution: in the shared memory of any
+   reachable configuration a tuple is stored at most once over all shards, in its own shard, and
+   two sessions that would both pass IsOwner on that memory are the same session *)
+Lemma concurrent_single_owner progs c : t_reach progs c ->
+  (forall k i j v w, (i < num_shards)%nat -> (j < num_shards)%nat ->
+     In (k, v) (c_sh c i) -> In (k, w) (c_sh c j) ->
+     i = j /\ v = w /\ i = shard_idx k /\ m_get k (c_sh c (shard_idx k)) = Some v) /\
+  (forall k o1 o2 cur1 cur2,
+     m_get k (c_sh c (shard_idx k)) = Some cur1 -> same_id cur1 o1 = true ->
+     m_get k (c_sh c (shard_idx k)) = Some cur2 -> same_id cur2 o2 = true -> same_id o1 o2 = true).
+Proof.
+  intros R. destruct (concurrent_state progs c R) as [lin [_ [Hwf Hsh]]].
+  set (r := fst (reg_run new_registry (map (@e_op op ret) lin))) in *. split.
+  - intros k i j v w Hi Hj Hv Hw. rewrite (Hsh i Hi) in Hv. rewrite (Hsh j Hj) in Hw.
+    destruct (stored_once r Hwf k i j v w Hv Hw) as [E1 [E2 E3]]. split; [exact E1|]. split; [exact E2|].
+    destruct Hwf as [_ Hs]. destruct (Hs i) as [_ Hin]. pose proof (Hin _ _ Hv) as Ei. split; [congruence|].
+    rewrite (Hsh _ (shard_idx_lt k)). exact E3.
+  - intros k o1 o2 cur1 cur2 H1 S1 H2 S2. rewrite H1 in H2. inversion H2; subst cur2.
+    rewrite same_id_sym in S1. eapply same_id_trans; eauto.
+Qed.
+
+(* every complete concurrent history: linearizable, and in the linearization — which contains
+   exactly the responses of the history, from all threads — (a) a claim reports p exactly when p
+   was the owner at that point and is another session, (b) a session is reported as displaced from
+   a tuple twice only if it claimed the tuple again in between, (c) at every point of the
+   linearization the table stores each tuple at most once *)
+Lemma concurrent_reported_once progs c : t_reach progs c -> quiescent c ->
+  exists lin : list t_entry,
+    (forall t, proj t (c_hist c) = proj t (expand lin)) /\
+    reg_legal new_registry lin /\ NoDup (ids lin) /\
+    (forall a r b o, before (ERes a r) (EInv b o) (c_hist c) -> before a b (ids lin)) /\
+    (forall id r, In (ERes id r) (c_hist c) <-> exists o, In ((id, o, r) : t_entry) lin) /\
+    (forall pre e post k o, lin = pre ++ e :: post -> e_op e = OClaim k o ->
+       e_ret e = match lookup (state_after new_registry (pairs pre)) k with
+                 | Some p => if same_id p o then RNil else ROwner p
+                 | None => RNil end) /\
+    (forall pre e1 mid e2 post k o1 p1 o2 p2,
+       lin = pre ++ e1 :: mid ++ e2 :: post ->
+       e_op e1 = OClaim k o1 -> e_ret e1 = ROwner p1 ->
+       e_op e2 = OClaim k o2 -> e_ret e2 = ROwner p2 -> same_id p2 p1 = true ->
+       exists e, In e mid /\ claim_by k p1 (e_op e) = true) /\
+    (forall pre post, lin = pre ++ post -> reg_wf (state_after new_registry (pairs pre))).
+Proof.
+  intros R Q. destruct (table_ops_linearizable progs c R Q) as [lin [A [B [C D]]]].
+  exists lin. split; [exact A|]. split; [exact B|]. split; [exact C|]. split; [exact D|].
+  split; [|split; [|split]].
+  - intros id r. split.
+    + intros H. apply (proj_same_events _ _ A) in H. apply in_expand_res in H. exact H.
+    + intros H. apply (proj_same_events _ _ A). apply in_expand_res. exact H.
+  - intros pre e post k o -> Ho. apply reg_legal_from in B. unfold pairs in B. rewrite map_app in B.
+    cbn [map] in B. rewrite Ho in B. eapply legal_claim_reports. exact B.
+  - intros pre e1 mid e2 post k o1 p1 o2 p2 -> Ho1 Hr1 Ho2 Hr2 Hs.
+    apply reg_legal_from in B. unfold pairs in B. rewrite map_app in B. cbn [map] in B.
+    rewrite map_app in B. cbn [map] in B. rewrite Ho1, Hr1, Ho2, Hr2 in B.
+    destruct (legal_reported_once _ _ _ _ _ _ _ _ B Hs) as [ox [Hin Hc]].
+    apply in_map_iff in Hin. destruct Hin as [e [<- Hin]]. exists e. auto.
+  - intros pre post _. unfold state_after. apply reg_run_wf. apply new_registry_wf.
+Qed.
+
 (* ---- non-vacuity: two sessions of different protocols claim the same tuple; the two
         operations overlap in real time (both invoked before either responds) ---- *)
 Definition ex_key : key := mkKey 100 10 [2; 170; 187; 204; 0; 1]%N.
@@ -70,36 +160,53 @@ Definition ex_a : owner := mkOwner proto_ipoe [115; 49]%N ex_key.
 Definition ex_b : owner := mkOwner proto_pppoe [115; 50]%N ex_key.
 Definition ex_progs (t : nat) : list op :=
   match t with
-  | 0%nat => [OClaim ex_key ex_a]
+  | 0%nat => [OClaim ex_key ex_a; OLookup ex_key]
   | 1%nat => [OClaim ex_key ex_b; OLookup ex_key]
   | _ => []
   end.
 Definition ex_hist : list t_event :=
   [EInv (0, 0)%nat (OClaim ex_key ex_a); EInv (1, 0)%nat (OClaim ex_key ex_b);
    ERes (1, 0)%nat RNil; ERes (0, 0)%nat (ROwner ex_b);
-   EInv (1, 1)%nat (OLookup ex_key); ERes (1, 1)%nat (ROwner ex_a)].
+   EInv (0, 1)%nat (OLookup ex_key); EInv (1, 1)%nat (OLookup ex_key);
+   ERes (1, 1)%nat (ROwner ex_a); ERes (0, 1)%nat (ROwner ex_a)].
 
 Lemma reach_next {progs c c'} : t_reach progs c -> t_step c c' -> t_reach progs c'.
 Proof. intros R S. eapply Relation_Operators.rtn1_trans; eauto. Qed.
 
 Ltac acq_ok := let t' := fresh in let o' := fresh in let Hne := fresh in let Hh := fresh in
-  intros t' o' Hne Hh; destruct t' as [|[|t']]; simpl in Hh; try discriminate; congruence.
+  intros t' o' Hne Hh; destruct t' as [|[|t']]; simpl in Hh; try discriminate; try congruence;
+  try (intros _; inversion Hh; subst; split; reflexivity).
 Ltac go R n ctor :=
   eapply reach_next in R;
   [| unfold t_step; eapply ctor with (t := n); [reflexivity | try acq_ok ..]].
 
+(* two overlapping claims (the second invoker wins the lock, the first is blocked meanwhile), then
+   two lookups that hold the shard's lock in read mode AT THE SAME TIME *)
 Lemma ex_reachable : exists c, t_reach ex_progs c /\ quiescent c /\ c_hist c = ex_hist.
 Proof.
   assert (R : t_reach ex_progs (init (store_of new_registry) ex_progs)) by constructor.
   unfold init in R.
-  (* thread 0 invokes; thread 1 invokes and runs its Claim to completion; thread 0 proceeds;
-     thread 1 looks the tuple up *)
   go R 0%nat s_invoke. go R 1%nat s_invoke.
   go R 1%nat s_acquire. go R 1%nat s_read. go R 1%nat s_finish. go R 1%nat s_unlock. go R 1%nat s_respond.
   go R 0%nat s_acquire. go R 0%nat s_read. go R 0%nat s_finish. go R 0%nat s_unlock. go R 0%nat s_respond.
-  go R 1%nat s_invoke.
-  go R 1%nat s_acquire. go R 1%nat s_read. go R 1%nat s_finish. go R 1%nat s_unlock. go R 1%nat s_respond.
+  go R 0%nat s_invoke. go R 1%nat s_invoke.
+  go R 0%nat s_acquire. go R 1%nat s_acquire.        (* both readers inside *)
+  go R 0%nat s_read. go R 1%nat s_read. go R 1%nat s_finish. go R 0%nat s_finish.
+  go R 1%nat s_unlock. go R 0%nat s_unlock. go R 1%nat s_respond. go R 0%nat s_respond.
   eexists. split; [exact R|]. split.
   - intros t. destruct t as [|[|t]]; reflexivity.
   - vm_compute. reflexivity.
+Qed.
+
+(* while thread 1 holds the shard's write lock, thread 0 (already invoked) cannot acquire it *)
+Lemma ex_blocked : exists c,
+  t_reach ex_progs c /\ t_st (c_th c 1%nat) = TLocked (OClaim ex_key ex_b) /\
+  t_st (c_th c 0%nat) = TInvoked (OClaim ex_key ex_a) /\
+  ~ can_acquire lock_of op_is_read (c_th c) 0%nat (OClaim ex_key ex_a).
+Proof.
+  assert (R : t_reach ex_progs (init (store_of new_registry) ex_progs)) by constructor.
+  unfold init in R.
+  go R 0%nat s_invoke. go R 1%nat s_invoke. go R 1%nat s_acquire.
+  eexists. split; [exact R|]. split; [reflexivity|]. split; [reflexivity|].
+  intros H. destruct (H 1%nat (OClaim ex_key ex_b)) as [E _]; [discriminate | reflexivity | reflexivity | discriminate].
 Qed.
